@@ -31,6 +31,7 @@ def plan(ctx):
         P.append(sweep.universe_shards(PROP, "U-T4r", j, frac=512, seed=ctx.seed))
     P.append(sweep.family_shards(PROP, "U-Z", j))
     P.append(sweep.family_shards(PROP, "U-K", j))
+    P.append(sweep.family_shards(PROP, "U-M", 1000))
     P.append(sweep.family_shards(PROP, "U-H", 1000))
     P.append(sweep.family_shards(PROP, "U-A", 2000, all_sizes=True) if ctx.thorough else sweep.family_shards(PROP, "U-A", 2000))
     P.append(sweep.family_shards(PROP, "U-G", j, stride=1 if ctx.thorough else 6, offset=ctx.seed))
